@@ -137,8 +137,8 @@ impl<'a> Reader<'a> {
         let (qname, qname_len) =
             Name::try_from_compressed(self.octets, self.cursor).map_err(Error::InvalidQname)?;
         let qname_end = self.cursor + qname_len;
-        let qtype = read_u16(&self.octets[qname_end..])?.into();
-        let qclass = read_u16(&self.octets[qname_end + 2..])?.into();
+        let qtype = read_u16(tail(self.octets, qname_end))?.into();
+        let qclass = read_u16(tail(self.octets, qname_end + 2))?.into();
         self.cursor += qname_len + 4;
         Ok(Question {
             qname,
@@ -175,10 +175,10 @@ impl<'a> Reader<'a> {
         let (owner, owner_len) =
             Name::try_from_compressed(self.octets, self.cursor).map_err(Error::InvalidOwner)?;
         let owner_end = self.cursor + owner_len;
-        let rr_type = read_u16(&self.octets[owner_end..])?.into();
-        let class = read_u16(&self.octets[owner_end + 2..])?.into();
-        let ttl = read_u32(&self.octets[owner_end + 4..])?.into();
-        let rdlength = read_u16(&self.octets[owner_end + 8..])?;
+        let rr_type = read_u16(tail(self.octets, owner_end))?.into();
+        let class = read_u16(tail(self.octets, owner_end + 2))?.into();
+        let ttl = read_u32(tail(self.octets, owner_end + 4))?.into();
+        let rdlength = read_u16(tail(self.octets, owner_end + 8))?;
         let rdata = Rdata::read(
             class,
             rr_type,
@@ -206,7 +206,7 @@ impl<'a> Reader<'a> {
         let owner_len =
             Name::skip_compressed(&self.octets[self.cursor..]).map_err(Error::InvalidOwner)?;
         let owner_end = self.cursor + owner_len;
-        let rdlength = read_u16(&self.octets[owner_end + 8..])?;
+        let rdlength = read_u16(tail(self.octets, owner_end + 8))?;
         let rr_end = owner_end + 10 + rdlength as usize;
         if rr_end > self.octets.len() {
             Err(Error::InvalidRdata(ReadRdataError::UnexpectedEom))
@@ -226,7 +226,7 @@ impl<'a> Reader<'a> {
         let owner_len =
             Name::skip_compressed(&self.octets[self.cursor..]).map_err(Error::InvalidOwner)?;
         let owner_end = self.cursor + owner_len;
-        let rdlength = read_u16(&self.octets[owner_end + 8..])?;
+        let rdlength = read_u16(tail(self.octets, owner_end + 8))?;
         let rr_end = owner_end + 10 + rdlength as usize;
         if rr_end > self.octets.len() {
             Err(Error::InvalidRdata(ReadRdataError::UnexpectedEom))
@@ -418,6 +418,13 @@ impl<'r, 'b> PeekRr<'r, 'b> {
 ////////////////////////////////////////////////////////////////////////
 // HELPERS FOR READING MULTI-BYTE INTEGERS                            //
 ////////////////////////////////////////////////////////////////////////
+
+/// Returns `octets[start..]`, or an empty slice if `start` lies beyond
+/// the end of `octets` (so that a subsequent fixed-size read reports an
+/// unexpected end of message instead of panicking).
+fn tail(octets: &[u8], start: usize) -> &[u8] {
+    octets.get(start..).unwrap_or(&[])
+}
 
 /// Reads a network-byte-order `u16` from the beginning of `octets`.
 fn read_u16(octets: &[u8]) -> Result<u16> {
